@@ -5,6 +5,7 @@ package main
 // (ocaml/drv_stl.ml).
 
 import (
+	"bytes"
 	"encoding/hex"
 	"fmt"
 	"strings"
@@ -144,7 +145,13 @@ type stlRendering struct {
 
 func renderSTLRow(r *rng, runs []stlRun, teletext bool, rd stlRendering) []byte {
 	var o []byte
-	if teletext {
+	// the start box may be omitted altogether (WriteToSTL never writes one; the reader takes a row without any start box
+	// as boxed from its first column: C05_write_is_rendering)
+	noBox := teletext && !rd.colour && !rd.doubleHeight && !rd.boxDouble && r.chance(1, 2)
+	if noBox {
+		stlCount("stl.free.start_box_omitted")
+	}
+	if teletext && !noBox {
 		if rd.colour {
 			o = append(o, byte(1+r.intn(7)))
 		}
@@ -198,7 +205,7 @@ func renderSTLRow(r *rng, runs []stlRun, teletext bool, rd stlRendering) []byte 
 			o = append(o, 0x85)
 		}
 	}
-	if teletext {
+	if teletext && !(noBox && r.chance(1, 2)) {
 		o = append(o, 0x0a)
 		if rd.boxDouble {
 			o = append(o, 0x0a)
@@ -220,8 +227,12 @@ func renderSTLText(r *rng, c stlCue, teletext bool) []byte {
 			if teletext {
 				if r.chance(1, 3) {
 					tf = append(tf, byte(1+r.intn(7)))
+					tf = append(tf, 0x0b)
+				} else if r.chance(1, 3) && !bytes.Contains(stlElemBytes(row), []byte{0x0b}) {
+					stlCount("stl.free.start_box_omitted")
+				} else {
+					tf = append(tf, 0x0b)
 				}
-				tf = append(tf, 0x0b)
 			}
 			tf = append(tf, stlElemBytes(row)...)
 			if teletext && r.chance(1, 2) {
